@@ -318,7 +318,7 @@ func init() {
 	intrinsics["io.WriteString"] = func(a *Act, st *State, c *ssa.Function, x []Val, p tokenPos) Val {
 		// ghost output counter: the number of runes written so far (to any writer)
 		a.outAdd(st, a.runeCount(x[1].T))
-		return a.freshResult(st, c.Signature)
+		return a.outResult(st, c)
 	}
 	intrinsics["fmt.Fprintf"] = fprintfIntrinsic(1)
 	intrinsics["(*github.com/fatih/color.Color).Fprintf"] = fprintfIntrinsic(2)
@@ -379,10 +379,11 @@ var _ = strings.TrimSpace
 const outHeap = "OUT_len"
 
 func (a *Act) runeCount(s Term) Term {
-	f := a.u.D.Fun("utf8_count", []string{"Str"}, "Int")
-	t := app(f, s)
-	a.u.Fact(and(app("<=", "0", t), app("<=", t, app("str_len", s))))
-	return t
+	d := a.u.D
+	if !d.seen["utf8_count"] {
+		d.add("utf8_count", "(declare-fun utf8_count (Str) Int)\n(assert (forall ((s Str)) (! (and (<= 0 (utf8_count s)) (<= (utf8_count s) (str_len s))) :pattern ((utf8_count s)))))")
+	}
+	return app("utf8_count", s)
 }
 
 func (a *Act) outAdd(st *State, n Term) {
@@ -391,7 +392,26 @@ func (a *Act) outAdd(st *State, n Term) {
 
 func outUnknown(a *Act, st *State, c *ssa.Function, x []Val, p tokenPos) Val {
 	st.setHeap(outHeap, "Int", a.u.D.Fresh("out", "Int"))
-	return a.freshResult(st, c.Signature)
+	return a.outResult(st, c)
+}
+
+const outOKHeap = "OUT_ok"
+
+// outResult: the result of a modelled write; the ghost flag outok() stays true only while every write
+// so far returned a nil error (the rune counter is meaningful only then).
+func (a *Act) outResult(st *State, c *ssa.Function) Val {
+	res := a.freshResult(st, c.Signature)
+	n := c.Signature.Results().Len()
+	if n > 0 {
+		last := res
+		if res.Tuple != nil {
+			last = res.Tuple[n-1]
+		}
+		if a.u.D.SortOf(c.Signature.Results().At(n-1).Type()) == "Iface" {
+			st.setHeap(outOKHeap, "Bool", and(st.heap(outOKHeap, "Bool"), eq(app("itag", last.T), "0")))
+		}
+	}
+	return res
 }
 
 // fprintfIntrinsic models Fprintf(w, format, args...) for the ghost output counter. Only the
@@ -423,7 +443,7 @@ func fprintfIntrinsic(fmtIdx int) intrinsicFn {
 			n := a.runeCount(s)
 			a.outAdd(st, ite(app(">=", w, n), w, n))
 			a.u.Trusted["fmt: Fprintf(\"%*s\", w, s) writes max(w, runes(s)) runes (colour escape sequences not counted)"] = true
-			return a.freshResult(st, c.Signature)
+			return a.outResult(st, c)
 		}
 		return outUnknown(a, st, c, x, p)
 	}
